@@ -474,12 +474,18 @@ theorem no_saturation_float :
 `currency_gen.go` is generated code over the msgp library and is not translated; its model is
 `Verif/Model/Msgp.lean` (AppendUint64 / ReadUint64Bytes byte for byte, every Go slice index an explicit `.panic`),
 tied to the compiled code by the ops `menc`/`mdec` of suite c18 (boundary amounts; all 256 lead bytes × payload
-lengths 0..10; malformed streams). The shape of the Go methods is extracted by go/xlate and pinned here. -/
+lengths 0..10; malformed streams). Which msgp primitives the Go methods reach is extracted by go/xlate and pinned here (`codec_primitives`). -/
 
-/-- the three codec methods still are thin wrappers of exactly these msgp members -/
-theorem codec_shape : codecCalls =
-    [("Coin.MarshalMsg", ["Require", "AppendUint64"]), ("*Coin.UnmarshalMsg", ["ReadUint64Bytes", "WrapError"]),
-     ("Coin.Msgsize", ["Uint64Size"])] := by decide
+/-- which msgp primitives the codec methods reach (through any helpers of currency_gen.go, in any layout): encoding
+    goes through the UNSIGNED append and nothing but `Require`/`Uint64Size` besides; decoding through the unsigned
+    read (plus error wrapping); `Msgsize` is `Uint64Size`. A signed/float variant or any other primitive fails here;
+    what the bytes are is the business of the `menc`/`mdec` correspondence and of the theorems below. -/
+theorem codec_primitives :
+    (codecPrimitives.lookup "MarshalMsg").any (fun m =>
+      "AppendUint64" ∈ m ∧ m.all (· ∈ ["AppendUint64", "Require", "Uint64Size"])) = true ∧
+    (codecPrimitives.lookup "UnmarshalMsg").any (fun m =>
+      "ReadUint64Bytes" ∈ m ∧ m.all (· ∈ ["ReadUint64Bytes", "WrapError"])) = true ∧
+    codecPrimitives.lookup "Msgsize" = some ["Uint64Size"] := by decide
 
 /-- decoding an encoded amount returns the amount and exactly the bytes that followed it
     (`rest = []`: `decode (encode c) = (c, [])`) -/
